@@ -27,6 +27,8 @@ REQUIRED = {
     'MC_Session_join.cfg': ['Accumulated', 'FilterMid', 'FilterSplits'],
     'MC_Session_time.cfg': ['GapOverSecond', 'GapExactSecond', 'FilterSplits'],
     'MC_Gdb.cfg': GDB,
+    'MC_RunMode_A.cfg': ['ErrClosedEarly', 'ExitBeforeRead', 'StatusBeforeEof', 'MidLineSplit', 'Returned99'],
+    'MC_RunMode_B.cfg': ['ErrClosedEarly', 'ExitBeforeRead', 'Unterminated', 'MidLineSplit'],
 }
 
 
